@@ -90,7 +90,62 @@ func checkTime(v oracle.Value, t time.Time, s progs.Settings) error {
 	case zerolog.TimeFormatUnixNano:
 		return checkNum(v, strconv.FormatInt(t.UnixNano(), 10))
 	}
-	return checkStr(v, goRunes(t.Format(s.TimeFormat)))
+	if err := checkStr(v, goRunes(t.Format(s.TimeFormat))); err != nil {
+		return err
+	}
+	// the text read back is the instant that was logged (to the precision the layout carries); only for the two
+	// layouts that are self-describing, and for zone offsets of whole minutes (RFC 3339 has no seconds in offsets)
+	if _, off := t.Zone(); (s.TimeFormat == time.RFC3339 || s.TimeFormat == time.RFC3339Nano) && off%60 == 0 && t.Year() >= 0 && t.Year() <= 9999 {
+		back, err := time.Parse(time.RFC3339Nano, v.Str)
+		if err != nil {
+			return fmt.Errorf("time text %q does not parse: %v", v.Str, err)
+		}
+		if back.Unix() != t.Unix() || (s.TimeFormat == time.RFC3339Nano && !back.Equal(t)) {
+			return fmt.Errorf("time text %q is the instant %s, logged %s (off by %s)", v.Str, back.UTC().Format(time.RFC3339Nano), t.UTC().Format(time.RFC3339Nano), back.Sub(t))
+		}
+		if _, boff := back.Zone(); boff != off {
+			return fmt.Errorf("time text %q carries zone offset %d s, logged %d s", v.Str, boff, off)
+		}
+	}
+	return nil
+}
+
+// checkOps: the decoded object has exactly the members the calls added, in call order, each equal to its argument.
+// Covers the calls the history sweep uses: regular methods, Dict, Array of regular elements, Errs of plain errors.
+func checkOps(v oracle.Value, ops []progs.Op, s progs.Settings) error {
+	if v.Kind != 'o' {
+		return fmt.Errorf("not an object")
+	}
+	if len(v.Members) != len(ops) {
+		var ks []string
+		for _, m := range v.Members {
+			ks = append(ks, m.Key)
+		}
+		return fmt.Errorf("%d members %q, %d fields were added", len(v.Members), ks, len(ops))
+	}
+	for i, o := range ops {
+		m := v.Members[i]
+		if m.Key != goRunes(string(o.Key)) {
+			return fmt.Errorf("member %d has key %q, added %q", i, m.Key, o.Key)
+		}
+		var err error
+		switch o.K {
+		case "key":
+			err = checkValue(m.Val, *o.P, s)
+		case "dict":
+			err = checkOps(m.Val, o.Sub, s)
+		case "array":
+			err = checkArr(m.Val, len(o.Sub), func(j int, e oracle.Value) error { return checkValue(e, *o.Sub[j].P, s) })
+		case "errs":
+			err = checkArr(m.Val, len(o.Es), func(j int, e oracle.Value) error { return checkStr(e, goRunes(string(o.Es[j].S))) })
+		default:
+			err = fmt.Errorf("checkOps: unsupported op %s", o.K)
+		}
+		if err != nil {
+			return fmt.Errorf("%q: %v", o.Key, err)
+		}
+	}
+	return nil
 }
 
 func checkDur(v oracle.Value, d time.Duration, s progs.Settings) error {
@@ -435,5 +490,118 @@ func runC02(c *Ctx, emit func(cs *progs.Case) progs.Obs) {
 			}
 		}
 	}
-	_ = zerolog.Disabled
+	// directed: escape look-alikes (a backslash in the DATA followed by u003c, n, a quote ...) as text and inside
+	// reflected values; decoded they are the same characters again
+	for i, b := range progs.EscapeLookalikes() {
+		s := progs.DefaultSettings()
+		s.LevelName = ""
+		txt := "a" + string(b) + "z"
+		probe("Str", progs.Prim{M: "Str", V: txt}, s)
+		for k := 0; k < 2; k++ {
+			sh := progs.IfaceShapes[(i+k*3)%len(progs.IfaceShapes)]
+			probe("Interface", progs.Prim{M: "Interface", V: sh.Mk(txt)}, s)
+		}
+	}
+	// directed: zone offsets. Every sign / sub-hour / sub-minute combination of a fixed zone, under the default layout
+	// through every entry point, and as one slice under further layouts that print the zone
+	offsets := []int{0, 1, -1, 59, -59, 60, -60, 900, -900, 1800, -1800, 2700, -2700, 3599, -3599, 3600, -3600, 5400, -5400, -2670, /* Monrovia before 1972 */
+		12600, -12600, 20700, 50400, -43200, 86399, -86399}
+	zinstants := []time.Time{time.Unix(1614834367, 0), time.Unix(0, 0), time.Unix(1609458299, 999999999), time.Unix(-1, 500000000)}
+	for i, off := range offsets {
+		s := progs.DefaultSettings()
+		s.LevelName = ""
+		probe("Time", progs.Prim{M: "Time", V: zinstants[i%len(zinstants)].In(time.FixedZone("", off))}, s)
+		c.Hist("c02_zone_offset", fmt.Sprint(off))
+	}
+	for _, layout := range []string{time.RFC3339, time.RFC3339Nano, "2006-01-02T15:04:05.000Z0700", time.RFC1123Z, "Jan _2 15:04:05 Z07:00:00"} {
+		for _, t := range zinstants {
+			var ts []time.Time
+			for _, off := range offsets {
+				ts = append(ts, t.In(time.FixedZone("", off)))
+			}
+			s := progs.DefaultSettings()
+			s.LevelName = ""
+			s.TimeFormat = layout
+			probe("Times", progs.Prim{M: "Times", V: ts}, s)
+		}
+	}
+	runC02History(c, emit)
+}
+
+// runC02History: the event under test is preceded, on the same logger and goroutine, by events that are filtered out
+// (by the logger's level, the global level, a sampler, WithLevel(Disabled), a Disabled logger) and were given
+// non-empty pooled values (zerolog.Arr(), zerolog.Dict()).  What is decoded from the following enabled event /
+// context is still exactly what was logged there, through every call that takes an array or dict from a pool.
+func runC02History(c *Ctx, emit func(cs *progs.Case) progs.Obs) {
+	s := progs.DefaultSettings()
+	s.LevelName = ""
+	elem := func(m string, v interface{}) progs.Op { return progs.Op{K: "aelem", P: &progs.Prim{M: m, V: v}} }
+	kp := func(k, m string, v interface{}) progs.Op {
+		return progs.Op{K: "key", Key: []byte(k), P: &progs.Prim{M: m, V: v}}
+	}
+	var big []progs.Op
+	for i := 0; i < 40; i++ {
+		big = append(big, elem("Int", 1000+i))
+	}
+	stale := [][]progs.Op{
+		{{K: "array", Key: []byte("x"), Sub: []progs.Op{elem("Str", "debug-only"), elem("Int", -1), elem("Bool", true)}}},
+		{{K: "dict", Key: []byte("x"), Sub: []progs.Op{kp("stale", "Str", "s"), {K: "array", Key: []byte("y"), Sub: []progs.Op{elem("Float64", 2.5), elem("Str", "t")}}}},
+			{K: "array", Key: []byte("z"), Sub: []progs.Op{elem("Str", "u")}}},
+		{{K: "array", Key: []byte("x"), Sub: nil}, {K: "array", Key: []byte("w"), Sub: big}, kp("k", "Str", "v")},
+	}
+	fresh := []progs.Op{elem("Int", 1), elem("Int", 2)}
+	errs := []*progs.ErrV{{K: "text", S: []byte("e1")}, {K: "text", S: []byte("e2")}}
+	type consumer struct {
+		name string
+		ev   []progs.Op
+		ctx  []progs.Op
+	}
+	consumers := []consumer{
+		{"Event.Array(Arr())", []progs.Op{{K: "array", Key: []byte("val"), Sub: fresh}}, nil},
+		{"Event.Array(LogArrayMarshaler)", []progs.Op{{K: "array", Key: []byte("val"), Sub: fresh, Via: true}}, nil},
+		{"Event.Array(empty)", []progs.Op{{K: "array", Key: []byte("val"), Sub: nil}, kp("after", "Int", 3)}, nil},
+		{"Event.Errs", []progs.Op{{K: "errs", Key: []byte("val"), Es: errs}}, nil},
+		{"Event.Dict(Dict().Array)", []progs.Op{{K: "dict", Key: []byte("d"), Sub: []progs.Op{kp("a", "Str", "b"), {K: "array", Key: []byte("val"), Sub: fresh}}}}, nil},
+		{"two arrays", []progs.Op{{K: "array", Key: []byte("val"), Sub: fresh}, {K: "array", Key: []byte("val2"), Sub: []progs.Op{elem("Str", "only")}}}, nil},
+		{"Context.Array", []progs.Op{kp("e", "Int", 0)}, []progs.Op{{K: "array", Key: []byte("val"), Sub: fresh}}},
+		{"Context.Errs", nil, []progs.Op{{K: "errs", Key: []byte("val"), Es: errs}}},
+		{"Context.Dict", nil, []progs.Op{{K: "dict", Key: []byte("d"), Sub: []progs.Op{kp("a", "Str", "b")}}}},
+	}
+	for mode := range progs.PreludeModes {
+		for si, st := range stale {
+			for ci, cn := range consumers {
+				cs := &progs.Case{S: s, Level: 1, Ops: cn.ev, Fin: (mode + si + ci) % 4}
+				cs.Pre = &progs.Prelude{Mode: mode, Ops: st, Reps: 1 + (si+ci)%2, Fin: (mode + ci) % 4}
+				if cn.ctx != nil {
+					// the filtered events come first, on the root logger; the context is derived after them
+					cs.Pre.Early = true
+					var cops []progs.Cop
+					for i := range cn.ctx {
+						o := cn.ctx[i]
+						if o.K == "errs" {
+							cops = append(cops, progs.Cop{K: "errs", Key: o.Key, Es: o.Es})
+						} else {
+							cops = append(cops, progs.Cop{K: "op", O: &o})
+						}
+					}
+					cs.Steps = []progs.Step{{Cops: cops}}
+				}
+				o := emit(cs)
+				desc := map[string]interface{}{"history": "filtered event(s) given non-empty pooled values, then " + cn.name, "case": cs.Describe(), "line": fmt.Sprintf("%q", o.Line)}
+				if !o.Written {
+					c.Violate(Violation{Key: "field-missing", Monitor: "decode-back", Desc: "the enabled event after a filtered one was not written", Case: desc})
+					continue
+				}
+				v, err := oracle.CheckEventLine(o.Line)
+				if err != nil {
+					continue // C01's monitor
+				}
+				want := append(append([]progs.Op{}, cn.ctx...), cn.ev...)
+				if err := checkOps(v, want, s); err != nil {
+					c.Violate(Violation{Key: "value-not-roundtrip", Monitor: "decode-back", Desc: fmt.Sprintf("%s after a filtered event (%s) that was given non-empty Arr()/Dict() values: %v", cn.name, progs.PreludeModes[mode], err), Case: desc})
+				}
+				c.Hist("c02_history", cn.name)
+			}
+		}
+	}
 }
